@@ -1,7 +1,7 @@
 (* Proofs/C11/Main.v -- the lemmas in the exact form Properties/C11.v states them *)
 From Coq Require Import ZArith List Bool Arith Lia Setoid.
 From V Require Import Model.Build Spec.C11 Proofs.C11.Tbl Proofs.C11.Inv Proofs.C11.Conflict
-     Proofs.C11.Registered Proofs.C11.Integrity.
+     Proofs.C11.Registered Proofs.C11.Integrity Proofs.C11.SpecRefl Proofs.C11.Sinks.
 Import ListNotations.
 
 Lemma single_driver_run : forall ops, single_driver (run ops).
@@ -92,3 +92,25 @@ Proof. intros. apply integrity_clean; auto. apply run_inv. Qed.
 
 Lemma tree_ok_run : forall ops, tree_ok (run ops).
 Proof. intros. apply inv_tree_ok, run_inv. Qed.
+
+Lemma sinks_exact_run : forall ops, sinks_exact (run ops).
+Proof. exact sinks_run. Qed.
+
+(* the executable predicates evaluated on real states are the declarative ones *)
+Lemma checked_predicates_exact : forall s,
+  (single_driver_b s = true <-> single_driver s) /\ (unique_children_b s = true <-> unique_children s) /\
+  (unique_wires_b s = true <-> unique_wires s) /\ (sinks_exact_b s = true <-> sinks_exact s).
+Proof.
+  intros s. split; [apply single_driver_b_iff|]. split; [apply unique_children_b_iff|].
+  split; [apply unique_wires_b_iff | apply sinks_exact_b_iff].
+Qed.
+Lemma checked_frames_exact : forall s o s', unique_children s -> unique_wires s ->
+  (children_stay_b s s' = true <-> children_stay s s') /\ (drivers_stay_b s s' = true <-> drivers_stay s s') /\
+  (wires_stay_b s o s' = true <-> wires_stay s o s') /\ (subject_registered_b s o = true <-> subject_registered s o).
+Proof.
+  intros s o s' [C1 _] [W1 _]. split; [apply children_stay_b_iff; auto|].
+  split; [apply drivers_stay_b_iff|]. split; [apply wires_stay_b_iff; auto | apply subject_registered_b_iff].
+Qed.
+Lemma checked_integrity_exact : forall s h, unique_children s -> h < nobj s ->
+  (undriven_port_b s h = true <-> exists q, visited s h q /\ undriven s q).
+Proof. exact undriven_port_b_iff. Qed.
